@@ -14,7 +14,7 @@ import (
 
 // propPkgs: packages (relative to the repository root) whose contract files carry obligations of a property.
 var propPkgs = map[string][]string{
-	"C12": {"pkg/convert"},
+	"C12": {"pkg/convert", "|", "pkg/pb/v1"},
 	"C11": {"pkg/encoding", "pkg/encoding/vararray"},
 	"C01": {"pkg/convert", "|", "pkg/encoding", "pkg/encoding/vararray"},
 	"C02": {"banyand/measure"},
